@@ -263,6 +263,15 @@ Definition dec_window (d us : Z) : outcome Z :=
 Definition dec_alloc (d lc lp us : Z) : outcome Z :=
   do w <- dec_window d us; Ok (w + literal_bytes (lc + lp)).
 
+(* Use of the reader: when the size is unknown (u64::MAX in the header) the stream ends with an end
+   marker, which LZDecoder::repeat reports as error_other("dist overflow") before read_decode
+   recognises it: one transient std::io::Error = Box<Custom> (24) + Box<String> (24) + 13 message
+   bytes on the 64-bit target.  Nothing else is allocated while reading. *)
+Definition U64_MAX : Z := 18446744073709551615.
+Definition END_MARKER_ERROR_BYTES : Z := 61.
+Definition dec_peak (d lc lp us : Z) : outcome Z :=
+  do a <- dec_alloc d lc lp us; Ok (a + (if us =? U64_MAX then END_MARKER_ERROR_BYTES else 0)).
+
 (* LZMA2Reader: window + chunk buffer (COMPRESSED_SIZE_MAX - 5) + the literal tables of the current
    LZMADecoder.  [nprops] = number of chunks carrying new properties that were decoded: 0 = no
    decoder was ever built; >= 2 and [old]: decode_props built the new decoder before dropping the
@@ -329,3 +338,23 @@ Definition new_mem_limit (ck : bool) (props d us limit : Z) (rest : list Z) : tr
   end.
 
 Definition sumZ (l : list Z) : Z := fold_right Z.add 0 l.
+
+(* ------------------------------------------------------------------------------------------- *)
+(* Observation functions of the correspondence run (harness area "memusage")                    *)
+(* ------------------------------------------------------------------------------------------- *)
+Definition mode_of_z (z : Z) : enc_mode := if z =? 0 then Fast else Normal.
+Definition mf_of_z (z : Z) : mf_type := if z =? 0 then HC4 else BT4.
+Definition kind_of_z (z : Z) : writer_kind := if z =? 1 then KLzma else KLzma2.
+Definition mk_enc_params (d lc lp pb mode mf nice : Z) : enc_params :=
+  {| ep_dict := d; ep_lc := lc; ep_lp := lp; ep_pb := pb; ep_mode := mode_of_z mode; ep_mf := mf_of_z mf; ep_nice := nice |}.
+
+Definition obs_al_enc (ck : bool) (kind : Z) (p : enc_params) : outcome (Z * Z) :=
+  do e <- enc_estimate ck p; Ok (enc_alloc (kind_of_z kind) p, e).
+Definition obs_al_encr (ck : bool) (p : enc_params) : outcome (Z * Z) :=
+  do e <- enc_estimate ck p; Ok (enc_alloc_restart p, e).
+Definition obs_al_dec (ck : bool) (d lc lp us : Z) : outcome (Z * Z) :=
+  do e <- dec_estimate ck d lc lp; do a <- dec_peak d lc lp us; Ok (a, e).
+Definition obs_al_dec2 (ck : bool) (d lclp nprops : Z) : outcome (Z * Z) :=
+  do e <- dec2_estimate ck d; do a <- dec2_alloc d lclp nprops; Ok (a, e).
+Definition obs_memlimit (ck : bool) (props d us limit : Z) (rest : list Z) : Z * outcome unit :=
+  let t := new_mem_limit ck props d us limit rest in (sumZ (tr_allocs t), tr_result t).
